@@ -208,15 +208,45 @@ func (e *LinEnv) Int(v ssa.Value) *Lin {
 			if b.IsConst() && b.C >= 0 && b.C < 31 {
 				return e.Int(x.X).Scale(1 << uint(b.C))
 			}
-		case token.SHR, token.AND:
+		case token.SHR, token.AND, token.AND_NOT, token.QUO, token.REM:
 			b := e.Int(x.Y)
 			v := e.Int(x.X)
 			if b.IsConst() && b.C > 0 && v.knownNonNeg() {
 				d := int64(0)
-				if x.Op == token.SHR && b.C < 31 {
+				pow2 := func(c int64) bool { return c > 0 && c&(c-1) == 0 }
+				switch {
+				case x.Op == token.SHR && b.C < 31:
 					d = int64(1) << uint(b.C)
-				} else if x.Op == token.AND && (b.C&(b.C+1)) == 0 {
+				case (x.Op == token.AND || x.Op == token.AND_NOT) && (b.C&(b.C+1)) == 0:
 					d = b.C + 1
+				case (x.Op == token.QUO || x.Op == token.REM) && pow2(b.C):
+					d = b.C
+				}
+				if d > 0 && (x.Op == token.SHR || x.Op == token.QUO || x.Op == token.AND_NOT || x.Op == token.REM || x.Op == token.AND) {
+					// exact division: every coefficient is a multiple of d
+					exact := v.C%d == 0
+					for _, c := range v.T {
+						if c%d != 0 {
+							exact = false
+						}
+					}
+					if exact {
+						switch x.Op {
+						case token.SHR, token.QUO:
+							out := linConst(v.C / d)
+							for k, c := range v.T {
+								out.T[k] = c / d
+								if v.NonNeg[k] {
+									out.NonNeg[k] = true
+								}
+							}
+							return out
+						case token.AND_NOT:
+							return v
+						case token.REM, token.AND:
+							return linConst(0)
+						}
+					}
 				}
 				if d > 0 {
 					name := v.String()
@@ -224,8 +254,11 @@ func (e *LinEnv) Int(v ssa.Value) *Lin {
 					r := linTerm(fmt.Sprintf("(%s)%%%d", name, d), true)
 					e.addExtra(Fact{E: v.Sub(q.Scale(d)).Sub(r), Eq: true})
 					e.addExtra(Fact{E: linConst(d - 1).Sub(r)})
-					if x.Op == token.SHR {
+					switch x.Op {
+					case token.SHR, token.QUO:
 						return q
+					case token.AND_NOT:
+						return q.Scale(d) // x &^ (d-1) = d * (x / d)
 					}
 					return r
 				}
@@ -634,7 +667,25 @@ func ProveNonNeg(E *Lin, facts []Fact) bool {
 	if E.triviallyNonNeg() {
 		return true
 	}
-	return lpProveNonNeg(E, facts)
+	if lpProveNonNeg(E, facts) {
+		return true
+	}
+	// disequalities: D != 0 together with D >= 0 gives D >= 1 (all terms are integers; a common factor is divided out)
+	var extra []Fact
+	for _, f := range facts {
+		if !f.Ne {
+			continue
+		}
+		if f.E.triviallyNonNeg() || lpProveNonNeg(f.E, facts) {
+			extra = append(extra, Fact{E: intTighten(f.E.Sub(linConst(1)))})
+		} else if neg := f.E.Scale(-1); lpProveNonNeg(neg, facts) {
+			extra = append(extra, Fact{E: intTighten(neg.Sub(linConst(1)))})
+		}
+	}
+	if len(extra) == 0 {
+		return false
+	}
+	return lpProveNonNeg(E, append(append([]Fact(nil), facts...), extra...))
 }
 
 // Decide returns +1 if E >= 0 is proved, -1 if E < 0 is proved, 0 otherwise.
